@@ -89,6 +89,11 @@ def gen_elem(r, names, depth, subs=None):
         if nm not in used:
             used.add(nm)
             attrs.append((nm, gen_value(r, names)))
+    if r.chance(1, 4):
+        # model:value with an assignable expression (member / index chains, conditionals between them) or one that is not
+        chains = ["a", "o.p", "o.q.k", "l[0].p", "l[n].k", "o[k]", "c ? a : o.p", "c ? l[0].p : b", "d || a", "m.w", "l[n]"] + names + [x + ".p" for x in names] + \
+                 [x + ".k" for x in names] + ["c ? %s.p : a" % x for x in names] + [x + ".r[0]" for x in names]
+        attrs.append(("value", ("e", r.choice(chains))))
     return ("elem", r.choice(TAGS), attrs, gen_nodes(r, names, depth - 1, subs=subs) if depth > 0 else [])
 
 
@@ -134,7 +139,7 @@ def wx_value(v):
 
 
 def wx_attrs(attrs):
-    return "".join(' %s="%s"' % (n, wx_value(v).replace('"', "&quot;")) for n, v in attrs)
+    return "".join(' %s="%s"' % ("model:value" if n == "value" else n, wx_value(v).replace('"', "&quot;")) for n, v in attrs)
 
 
 def wx_carrier(c, extra, files=None):
@@ -306,7 +311,17 @@ def print_real(tree, born):
                 items.append("M%d@%s(%s)" % (born[c["n"]], jval(idx[i]) if idx is not None else str(i), " ".join(node(x) for x in c.get("children", []))))
             return "F%d[%s](%s)" % (b, ",".join(jstr(k) for k in o.get("keys", []) if k is not None), " ".join(items))
         raise ValueError(kind)
-    return "V0(%s)" % " ".join(node(c) for c in tree)
+    return "V0(%s) |%s" % (" ".join(node(c) for c in tree), " ".join(model_paths(tree, [])))
+
+
+def model_paths(tree, acc):
+    """the l-value path of every model:value binding, in document order (`null`: none handed over)"""
+    for o in tree:
+        if "tag" in o and "value" in (o.get("attrs") or {}):
+            p = (o.get("modelPaths") or {}).get("value")
+            acc.append("null" if p is None else "[" + ",".join(jval(x) for x in p) + "]")
+        model_paths(o.get("children", []), acc)
+    return acc
 
 
 def all_ids(tree, acc):
@@ -398,7 +413,7 @@ def directed_cases():
     return out
 
 
-def stream(chk, rng, count, bindmap=False):
+def stream(chk, rng, count, bindmap=False, paths=False):
     """model vs implementation on `count` generated (template, history) pairs; returns the number of differences"""
     cases = []
     for i in range(count):
@@ -486,9 +501,15 @@ def stream(chk, rng, count, bindmap=False):
     if not dreqs:
         return 0
     model = core.run_driver(dreqs) if core.MODEL_OK else real
+    if not paths:
+        # (the l-value paths of model: bindings, printed after " |", are the business of C11 only)
+        cut = lambda line: "\t".join(core.esc(core.unesc(f).split(" |")[0]) for f in line.split("\t"))
+        real, model = [cut(a) for a in real], [cut(b) for b in model]
     # templates whose expressions leave the modelled fragment at run time are not comparable
     pairs = [(rq, a, b) for rq, a, b in zip(dreqs, real, model) if "unsupported" not in b]
     chk.bump("corr:tagsem:unsupported", len(dreqs) - len(pairs))
     chk.bump("corr:tagsem:reused-node-cases", sum(1 for _, a, _ in pairs if any(("T0:" in part or "E0:" in part) for part in a.split("\t")[2:])))
+    if paths:
+        chk.bump("corr:tagsem:cases-with-model-paths", sum(1 for _, a, _ in pairs if any(core.unesc(f).split(" |")[-1].strip() for f in a.split("\t")[1:])))
     chk.bump("corr:tagsem:advertising-cases", sum(1 for _, a, _ in pairs if a.split("\t")[0] != ""))
     return core.diff_streams(chk, "tagsem", [p[0] for p in pairs], [p[1] for p in pairs], [p[2] for p in pairs])
